@@ -13,6 +13,10 @@ import (
 	"verif/internal/sber"
 )
 
+// c16OddStrings: argument values for string-typed options - empty, blank-only, separators only, unbalanced, non-UTF-8, long.
+var c16OddStrings = []string{"", " ", "\t", "\n", " \r\n ", "  ", ",", ",,", " , ", "=", "dc=a", "dc=a,", ",dc=a", " dc=a ", "dc=a , dc=b", "\x00", "\xff", "\xff\xfe,",
+	"(cn=x)", "((", "))", "(", ")", "()", "(&)", "*", "\\", "\\,", "cn=\\", strings.Repeat("dc=long,", 2000), strings.Repeat(" ", 5000)}
+
 func init() {
 	register(&Check{
 		ID: "C16", Level: "exploration", Primary: "calls", EvalCount: "calls",
@@ -395,13 +399,38 @@ func c16Helpers(c *Ctx) {
 	// ---- Mux registration methods
 	h := func(w *gldap.ResponseWriter, r *gldap.Request) {}
 	routeOpts := []optSpec{
-		{"label", func() gldap.Option { return gldap.WithLabel(string(r.Bytes(r.Intn(3)))) }},
-		{"base", func() gldap.Option { return gldap.WithBaseDN(pick(r, []string{"", "dc=a", "\x00"})) }},
-		{"filter", func() gldap.Option { return gldap.WithFilter(pick(r, []string{"", "(cn=x)", "((", "\xff"})) }},
+		{"label", func() gldap.Option { return gldap.WithLabel(pick(r, c16OddStrings)) }},
+		{"base", func() gldap.Option { return gldap.WithBaseDN(pick(r, c16OddStrings)) }},
+		{"filter", func() gldap.Option { return gldap.WithFilter(pick(r, c16OddStrings)) }},
 		{"scope", func() gldap.Option { return gldap.WithScope(gldap.Scope(r.Intn(5) - 1)) }},
 		{"nil", func() gldap.Option { return nil }},
 		{"foreign-ctl", func() gldap.Option { return gldap.WithCriticality(true) }},
 		{"foreign-resp", func() gldap.Option { return gldap.WithDiagnosticMessage("x") }},
+	}
+	// every odd string once in every string-typed position of a registration
+	for _, str := range c16OddStrings {
+		str := str
+		for _, pos := range []string{"WithBaseDN", "WithFilter", "WithLabel", "ExtendedOperationName"} {
+			c.Count("calls", 1)
+			c.Count("mux_registration_calls", 1)
+			c.Distinct("calls", fmt.Sprintf("Mux/%s(%q)", pos, trunc([]byte(str), 12)))
+			if msg, st := catch(func() {
+				m, _ := gldap.NewMux()
+				switch pos {
+				case "WithBaseDN":
+					m.Search(h, gldap.WithBaseDN(str))
+				case "WithFilter":
+					m.Search(h, gldap.WithFilter(str))
+				case "WithLabel":
+					m.Search(h, gldap.WithLabel(str))
+					m.Bind(h, gldap.WithLabel(str))
+				default:
+					m.ExtendedOperation(h, gldap.ExtendedOperationName(str))
+				}
+			}); msg != "" {
+				c16Panic(c, "Mux registration", msg, st, pos+" "+string(trunc([]byte(str), 32)))
+			}
+		}
 	}
 	for _, nilHandler := range []bool{false, true} {
 		for mask := 0; mask < 1<<len(routeOpts); mask++ {
